@@ -35,6 +35,15 @@ Theorem serial_lt_rfc1982 : forall a b,
 Proof. exact XfrBasic.serial_lt_rfc1982. Qed.
 Print Assumptions serial_lt_rfc1982.
 
+Theorem serial_gt_lt : forall a b, serial_gt a b = serial_lt b a.
+Proof. exact XfrBasic.serial_gt_lt. Qed.
+Print Assumptions serial_gt_lt.
+
+(* RFC 1982 3.1: adding 0 < d < 2^31 yields a greater serial (what transaction.update_serial relies on) *)
+Theorem serial_add_greater : forall a d v, 0 < d < two31 -> serial_add a d = Ok v -> serial_lt a v = true.
+Proof. exact XfrBasic.serial_add_greater. Qed.
+Print Assumptions serial_add_greater.
+
 Theorem serial_backwards_rejected : forall z ser udp w ws r0 rest,
   header_ok tIXFR w -> w_records w = r0 :: rest -> apex_soa r0 ->
   serial_lt (r_data r0 mod two32) ser = true ->
